@@ -787,6 +787,11 @@ def make_rec(rng, mode):
     if dtext.startswith("-"):
         dtext = dtext[1:]
         dt = tuple(-x for x in dt)
+    if not any(dt):
+        # an interval of no length (P0000-00-00T00,0): the library reads
+        # such a series as its single anchor point (C12), nothing for the
+        # command line to add
+        return make_rec(rng, mode)
     reverse = rng.random() < 0.3 and n is None
     nominal = bool(dt[0] or dt[1])
     if n is not None and nominal:
